@@ -10,7 +10,7 @@ raise.
 """
 import json
 
-from .. import grammar, observe, spec as specmod
+from .. import grammar, model, observe, spec as specmod
 from ..kernel import call, exc_site
 from .c01 import tol_for
 from .pool import FACTORS_ODD, FACTORS_POS, PoolScenario, hashes, snapshot_docs
@@ -79,8 +79,10 @@ class C04(PoolScenario):
     def _culprit(self, d, default):
         return d[1] if d else default
 
-    def _checkpoint(self, w, st, si, obj, wire, tag):
-        """serialise, check strictness / fixpoint / equality, return the replica"""
+    def _checkpoint(self, w, st, si, obj, wire, tag, cover=None, k=0):
+        """serialise, check strictness / fixpoint / equality, return the replica.  When the (record, weight) multiset the
+        object represents is known, the document is also compared with the reference model's document, which carries
+        the quantity names every node must serialise (name, values:name, bins:name, sub:name)."""
         import histogrammar as hg
 
         root = type(obj).__name__
@@ -97,6 +99,14 @@ class C04(PoolScenario):
         ndoc = observe.normalise(doc)
         if not grammar.valid_document(ndoc):
             w.bump("probe_document_outside_grammar")
+        if cover is not None:
+            mod = model.model_doc(w.specs[k], [(w.records[i], wt) for i, wt in cover])
+            d = observe.doc_diff(ndoc, mod, tol_for(w.records, len(cover) + 4 * si + 8))
+            w.bump("probe_document_vs_model")
+            if d is not None:
+                raise self.violation(d[1], "toJson", "content:%s" % d[2],
+                                     "the serialised document differs from the reference document (contents and quantity names) at %s (%s.%s)" % (
+                                         d[0], d[1], d[2]), si, {"observed": ndoc, "expected": mod})
         self._doc_probes(w, ndoc)
         if wire == "json":
             r = call(hg.Factory.fromJson, json.loads(text))
@@ -150,9 +160,10 @@ class C04(PoolScenario):
         if op == "checkpoint":
             if not w.has(st["obj"]):
                 return None, set()
-            rep = self._checkpoint(w, st, si, w.heap[st["obj"]], st["wire"], "c")
-            w.put(st["out"], rep, k=w.meta[st["obj"]]["k"], via="ship:" + st["wire"], mut=False, twin=st["obj"],
-                  twin_version=w.meta[st["obj"]].get("fills", 0))
+            src = w.meta[st["obj"]]
+            rep = self._checkpoint(w, st, si, w.heap[st["obj"]], st["wire"], "c", src.get("cover"), src["k"])
+            w.put(st["out"], rep, k=src["k"], via="ship:" + st["wire"], mut=False, twin=st["obj"],
+                  twin_version=src.get("fills", 0), cover=None if src.get("cover") is None else list(src["cover"]))
             w.meta[st["obj"]]["fills_at_ckpt"] = w.meta[st["obj"]].get("fills", 0)
             return "done", set()
         if op == "torn":
@@ -238,14 +249,29 @@ class C04(PoolScenario):
                                          "after %s the original and its JSON replica differ at %s (%s.%s)" % (what, d[0], d[1], d[2]),
                                          si, {"original": da.value, "replica": db.value})
                 # results are first-class too: serialise them
-                if what != "recheck":
-                    self._checkpoint(w, st, si, ob.value, "json", "r")
-                    self._checkpoint(w, st, si, oa.value, "jsonstr", "o")
+                ca = w.meta[st["orig"]].get("cover")
+                co = w.meta.get(st.get("other"), {}).get("cover") if what in ("add_other", "other_add") else None
+                if ca is None or (what in ("add_other", "other_add") and co is None):
+                    cov = None
+                elif what in ("add_other", "other_add"):
+                    cov = ca + co
+                elif what == "add_self":
+                    cov = ca + ca
+                elif what == "mul":
+                    cov = [] if (f != f or f <= 0) else [(i, wt * f) for i, wt in ca]
+                elif what == "zero":
+                    cov = []
                 else:
-                    self._checkpoint(w, st, si, b, "file", "rr")
+                    cov = list(ca)
+                kk = w.meta[st["orig"]]["k"]
+                if what != "recheck":
+                    self._checkpoint(w, st, si, ob.value, "json", "r", cov, kk)
+                    self._checkpoint(w, st, si, oa.value, "jsonstr", "o", cov, kk)
+                else:
+                    self._checkpoint(w, st, si, b, "file", "rr", cov, kk)
                 if what != "recheck":  # recheck returns the objects themselves: no new handles
-                    w.put(st["out"], oa.value, k=w.meta[st["orig"]]["k"], via="pair", mut=False)
-                    w.put(st["out2"], ob.value, k=w.meta[st["orig"]]["k"], via="pair", mut=False, twin=st["out"])
+                    w.put(st["out"], oa.value, k=kk, via="pair", mut=False, cover=cov)
+                    w.put(st["out2"], ob.value, k=kk, via="pair", mut=False, twin=st["out"], cover=cov)
             return "done", set()
         return super().apply_special(w, st, si)
 
@@ -264,9 +290,14 @@ class C04(PoolScenario):
                 if op == "pair_op":
                     lock += 1
             else:
+                if op == "new" and o.ok:
+                    w.meta[st["out"]]["cover"] = []
                 if op == "fill":
                     self.lib(o, op, si)
                     w.meta[st["obj"]]["fills"] = w.meta[st["obj"]].get("fills", 0) + 1
+                    wt = specmod.dec_float(st["w"])
+                    if w.meta[st["obj"]].get("cover") is not None and wt > 0:
+                        w.meta[st["obj"]]["cover"].append((st["rec"], wt))
                 elif not o.ok:
                     # +, *, copy on *mutable* trees and their results must work (C04 lists them as state producers)
                     w.bump("probe_op_failed_" + op)
@@ -274,6 +305,15 @@ class C04(PoolScenario):
                     src = st.get("l", st.get("obj"))
                     f = w.meta.get(src, {}).get("fills", 0) + (w.meta.get(st.get("r"), {}).get("fills", 0) if op == "add" else 0)
                     w.meta[st["out"]]["fills"] = f
+                    ca = w.meta.get(src, {}).get("cover")
+                    if op == "add":
+                        cb = w.meta.get(st["r"], {}).get("cover")
+                        w.meta[st["out"]]["cover"] = None if ca is None or cb is None else ca + cb
+                    elif op == "mul":
+                        ff = specmod.dec_float(st["f"])
+                        w.meta[st["out"]]["cover"] = None if ca is None else ([] if (ff != ff or ff <= 0) else [(i, wt * ff) for i, wt in ca])
+                    else:
+                        w.meta[st["out"]]["cover"] = None if ca is None else list(ca)
             w.record_step(st)
         R["nontrivial"] = ckpt_filled >= 1 and lock >= 2
         R["units"] = lock + ckpt_filled
